@@ -83,13 +83,16 @@ StreamsManagerBase<MAX_STREAMS> {
     pub fn create_stream_id(&self) -> u32 {
         self.created_streams_count.fetch_add(1, Relaxed);
         self.used_streams_count.fetch_add(1, Relaxed);
+        #[cfg(feature = "verif")] crate::verif::point(crate::verif::SM_CREATE_AFTER_COUNTERS);
         let stream_id = match self.vacant_streams.consume_movable() {
             Some(stream_id) => stream_id,
             None => panic!("StreamsManager: '{}' has a MAX_STREAMS of {MAX_STREAMS} -- which just got exhausted: stats: {} streams were created; {} dropped. Please, increase the limit or fix the LOGIC BUG!",
                            self.streams_manager_name, self.created_streams_count.load(Relaxed), self.finished_streams_count.load(Relaxed)),
         };
+        #[cfg(feature = "verif")] crate::verif::point(crate::verif::SM_CREATE_AFTER_ID);
         let keep_streams_running = unsafe { &mut * self.keep_streams_running.get() };
         keep_streams_running[stream_id as usize] = true;
+        #[cfg(feature = "verif")] crate::verif::point(crate::verif::SM_CREATE_AFTER_FLAG);
         self.sync_vacant_and_used_streams();
         stream_id
     }
@@ -98,6 +101,7 @@ StreamsManagerBase<MAX_STREAMS> {
     #[inline(always)]
     pub fn wake_stream(&self, stream_id: u32) {
         let wakers = unsafe { &* self.wakers.get() };
+        #[cfg(feature = "verif")] crate::verif::point(crate::verif::SM_WAKE_BEFORE_READ);
         match unsafe {wakers.get_unchecked(stream_id as usize)} {
             Some(waker) => waker.wake_by_ref(),
             None => {
@@ -149,6 +153,7 @@ StreamsManagerBase<MAX_STREAMS> {
     pub fn cancel_stream(&self, stream_id: u32) {
         let keep_streams_running = unsafe { &mut * self.keep_streams_running.get() };
         keep_streams_running[stream_id as usize] = false;
+        #[cfg(feature = "verif")] crate::verif::point(crate::verif::SM_CANCEL_AFTER_FLAG);
         self.wake_stream(stream_id);
     }
 
@@ -160,6 +165,7 @@ StreamsManagerBase<MAX_STREAMS> {
             if *stream_id == u32::MAX {
                 break
             }
+            #[cfg(feature = "verif")] crate::verif::point(crate::verif::SM_CANCEL_ALL_EACH);
             self.cancel_stream(*stream_id);
         }
     }
@@ -178,10 +184,12 @@ StreamsManagerBase<MAX_STREAMS> {
                 // the producer might have just woken the old version of the waker,
                 // so the following waking up line is needed to assure the consumers won't ever hang
                 // (as demonstrated by tests)
+                #[cfg(feature = "verif")] crate::verif::point(crate::verif::SM_REGISTER_BEFORE_SELF_WAKE);
                 waker.wake_by_ref();
             }
         }
 
+        #[cfg(feature = "verif")] crate::verif::point(crate::verif::SM_REGISTER_BEFORE_COMPARE);
         match unsafe { wakers.get_unchecked_mut(stream_id as usize) } {
             Some(registered_waker) => {
                 if !registered_waker.will_wake(waker) {
@@ -209,9 +217,12 @@ StreamsManagerBase<MAX_STREAMS> {
         ogre_sync::lock(&self.wakers_lock);
         wakers[stream_id as usize] = None;
         ogre_sync::unlock(&self.wakers_lock);
+        #[cfg(feature = "verif")] crate::verif::point(crate::verif::SM_DROPPED_AFTER_WAKER);
         self.finished_streams_count.fetch_add(1, Relaxed);
         self.used_streams_count.fetch_sub(1, Relaxed);
+        #[cfg(feature = "verif")] crate::verif::point(crate::verif::SM_DROPPED_AFTER_COUNTERS);
         self.vacant_streams.publish_movable(stream_id);
+        #[cfg(feature = "verif")] crate::verif::point(crate::verif::SM_DROPPED_AFTER_VACANT);
         self.sync_vacant_and_used_streams();
     }
 
@@ -227,6 +238,7 @@ StreamsManagerBase<MAX_STREAMS> {
     fn sync_vacant_and_used_streams(&self) {
         let used_streams = unsafe { &mut * self.used_streams.get() };
         ogre_sync::lock(&self.streams_lock);
+        #[cfg(feature = "verif")] crate::verif::point(crate::verif::SM_SYNC_LOCKED);
         let mut vacant = unsafe { self.vacant_streams.peek_remaining().concat() };
         vacant.sort_unstable();
         let mut vacant_iter = vacant.iter();
@@ -237,18 +249,21 @@ StreamsManagerBase<MAX_STREAMS> {
                 Some(next_vacant_stream_id) => {
                     for used_stream_id in i .. *next_vacant_stream_id {
                         last_used_stream_id += 1;
+                        #[cfg(feature = "verif")] crate::verif::point(crate::verif::SM_SYNC_EACH_ENTRY);
                         unsafe { *used_streams.get_unchecked_mut(last_used_stream_id as usize)  = used_stream_id };
                     }
                     i = *next_vacant_stream_id + 1;
                 }
                 None => {
                     last_used_stream_id += 1;
+                    #[cfg(feature = "verif")] crate::verif::point(crate::verif::SM_SYNC_EACH_ENTRY);
                     unsafe { *used_streams.get_unchecked_mut(last_used_stream_id as usize) = i };
                     i += 1;
                 }
             }
         }
         for i in (last_used_stream_id + 1) as usize .. MAX_STREAMS {
+            #[cfg(feature = "verif")] crate::verif::point(crate::verif::SM_SYNC_EACH_SENTINEL);
             unsafe { *used_streams.get_unchecked_mut(i) = u32::MAX };
         }
         ogre_sync::unlock(&self.streams_lock);
@@ -260,6 +275,7 @@ StreamsManagerBase<MAX_STREAMS> {
             let pending_items_count = pending_items_counter();
             if pending_items_count > 0 {
                 self.wake_all_streams();
+                #[cfg(feature = "verif")] crate::verif::spin(crate::verif::SM_FLUSH_WAIT);
                 tokio::time::sleep(Duration::from_millis(1)).await;
             } else {
                 break 0
@@ -292,6 +308,7 @@ StreamsManagerBase<MAX_STREAMS> {
         self.cancel_stream(stream_id);
         loop {
             self.wake_stream(stream_id);
+            #[cfg(feature = "verif")] crate::verif::spin(crate::verif::SM_END_STREAM_WAIT);
             tokio::time::sleep(Duration::from_millis(1)).await;
             if is_vacant() {
                 break true
@@ -312,6 +329,7 @@ StreamsManagerBase<MAX_STREAMS> {
             if timeout != Duration::ZERO && start.elapsed() > timeout {
                 break
             }
+            #[cfg(feature = "verif")] crate::verif::spin(crate::verif::SM_END_ALL_WAIT);
             tokio::time::sleep(Duration::from_millis(1)).await;
         }
         self.running_streams_count()
